@@ -361,6 +361,11 @@ func Parse(block []rune, pos int) (pt ParsedTokens, syntaxHighlighted string) {
 				}
 				pt.Loc = i
 				pt.LastFlowToken = i - 1
+				if readFunc {
+					// a flow token directly after a command name ends that name
+					pt.Unsafe = isCmdUnsafe(pt.FuncName) || pt.Unsafe
+					readFunc = false
+				}
 				pt.ExpectFunc = true
 				pt.SquareBracket = false
 				if block[i-1] == '-' {
@@ -421,6 +426,11 @@ func Parse(block []rune, pos int) (pt ParsedTokens, syntaxHighlighted string) {
 					return
 				}
 				pt.LastFlowToken = i
+				if readFunc {
+					// a flow token directly after a command name ends that name
+					pt.Unsafe = isCmdUnsafe(pt.FuncName) || pt.Unsafe
+					readFunc = false
+				}
 				pt.ExpectFunc = true
 				pt.SquareBracket = false
 				pt.PipeToken = PipeTokenPosix
@@ -465,6 +475,11 @@ func Parse(block []rune, pos int) (pt ParsedTokens, syntaxHighlighted string) {
 					return
 				}
 				pt.LastFlowToken = i
+				if readFunc {
+					// a flow token directly after a command name ends that name
+					pt.Unsafe = isCmdUnsafe(pt.FuncName) || pt.Unsafe
+					readFunc = false
+				}
 				pt.ExpectFunc = true
 				pt.SquareBracket = false
 				pt.PipeToken = PipeTokenNone
@@ -492,6 +507,11 @@ func Parse(block []rune, pos int) (pt ParsedTokens, syntaxHighlighted string) {
 					return
 				}
 				pt.LastFlowToken = i
+				if readFunc {
+					// a flow token directly after a command name ends that name
+					pt.Unsafe = isCmdUnsafe(pt.FuncName) || pt.Unsafe
+					readFunc = false
+				}
 				pt.ExpectFunc = true
 				pt.SquareBracket = false
 				pt.PipeToken = PipeTokenNone
@@ -516,6 +536,11 @@ func Parse(block []rune, pos int) (pt ParsedTokens, syntaxHighlighted string) {
 				}
 				pt.LastFlowToken = i
 				pt.Unsafe = true
+				if readFunc {
+					// a flow token directly after a command name ends that name
+					pt.Unsafe = isCmdUnsafe(pt.FuncName) || pt.Unsafe
+					readFunc = false
+				}
 				pt.ExpectFunc = true
 				pt.SquareBracket = false
 				pt.PipeToken = PipeTokenNone
@@ -539,6 +564,11 @@ func Parse(block []rune, pos int) (pt ParsedTokens, syntaxHighlighted string) {
 					return
 				}
 				pt.LastFlowToken = i
+				if readFunc {
+					// a flow token directly after a command name ends that name
+					pt.Unsafe = isCmdUnsafe(pt.FuncName) || pt.Unsafe
+					readFunc = false
+				}
 				pt.ExpectFunc = true
 				pt.SquareBracket = false
 				pt.PipeToken = PipeTokenNone
@@ -553,6 +583,11 @@ func Parse(block []rune, pos int) (pt ParsedTokens, syntaxHighlighted string) {
 					return
 				}
 				pt.LastFlowToken = i
+				if readFunc {
+					// a flow token directly after a command name ends that name
+					pt.Unsafe = isCmdUnsafe(pt.FuncName) || pt.Unsafe
+					readFunc = false
+				}
 				pt.ExpectFunc = true
 				pt.SquareBracket = false
 				pt.PipeToken = PipeTokenRedirect
@@ -577,6 +612,11 @@ func Parse(block []rune, pos int) (pt ParsedTokens, syntaxHighlighted string) {
 				syntaxHighlighted += string(block[i])
 			default:
 				pt.NestedBlock++
+				if readFunc {
+					// a flow token directly after a command name ends that name
+					pt.Unsafe = isCmdUnsafe(pt.FuncName) || pt.Unsafe
+					readFunc = false
+				}
 				pt.ExpectFunc = true
 				pt.PipeToken = PipeTokenNone
 				pt.pop = &pt.FuncName
